@@ -145,6 +145,7 @@ func cmdCheck(args []string) {
 	kfs := loadKnownFindings(filepath.Join(*verif, "known_findings.json"))
 
 	claimed, discharged := 0, 0
+	vacuity := map[string]int{}
 	var unclaimedOpen []string
 	var samples []interface{}
 	var perObl []map[string]interface{}
@@ -157,6 +158,12 @@ func cmdCheck(args []string) {
 				unclaimedOpen = append(unclaimedOpen, o.Name+" ("+r.Status+")")
 			}
 			continue
+		}
+		if o.Kind == "vacuity" {
+			vacuity[r.Status]++
+			if r.Status != "vacuous" {
+				continue
+			}
 		}
 		claimed++
 		perObl = append(perObl, map[string]interface{}{"name": o.Name, "kind": o.Kind, "status": r.Status, "solver": r.Solver, "ms": r.Ms})
@@ -278,6 +285,7 @@ func cmdCheck(args []string) {
 		"solver_time_s":            solverS,
 		"solver_timeout_s":         timeout,
 		"unclaimed_undischarged":   unclaimedOpen,
+		"vacuity_probes":           vacuity,
 		"samples":                  samples,
 		"explanation":              "contract-based deductive verification: VCs generated from the typed AST of /repo's working tree, one SMT query per obligation",
 	}
